@@ -1,11 +1,13 @@
 pub mod chmux_wl;
 pub mod c01;
+pub mod c04;
 
 use crate::harness::Check;
 
 pub fn all() -> Vec<Check> {
     let mut v = Vec::new();
     v.extend(c01::checks());
+    v.extend(c04::checks());
     v
 }
 
